@@ -3,6 +3,7 @@ package props
 import (
 	"encoding/json"
 	"fmt"
+	"math/big"
 	"reflect"
 	"regexp"
 	"strings"
@@ -27,9 +28,57 @@ type C06Case struct {
 }
 
 func jsonEquivalent(a, b string) bool {
-	var x, y any
-	if json.Unmarshal([]byte(a), &x) != nil || json.Unmarshal([]byte(b), &y) != nil {
-		return false
+	x, ok1 := decodeExact(a)
+	y, ok2 := decodeExact(b)
+	return ok1 && ok2 && exactEqual(x, y)
+}
+
+// decodeExact decodes a JSON text keeping numbers as they are written.
+func decodeExact(s string) (any, bool) {
+	dec := json.NewDecoder(strings.NewReader(s))
+	dec.UseNumber()
+	var v any
+	if dec.Decode(&v) != nil || dec.More() {
+		return nil, false
+	}
+	return v, true
+}
+
+// exactEqual compares two decoded JSON values; numbers are equal when they denote the same
+// number exactly (1e3 and 1000, 2.50 and 2.5 - but not two integers a float64 cannot tell apart).
+func exactEqual(x, y any) bool {
+	switch a := x.(type) {
+	case json.Number:
+		b, ok := y.(json.Number)
+		if !ok {
+			return false
+		}
+		ra, ok1 := new(big.Rat).SetString(string(a))
+		rb, ok2 := new(big.Rat).SetString(string(b))
+		return ok1 && ok2 && ra.Cmp(rb) == 0
+	case []any:
+		b, ok := y.([]any)
+		if !ok || len(a) != len(b) {
+			return false
+		}
+		for i := range a {
+			if !exactEqual(a[i], b[i]) {
+				return false
+			}
+		}
+		return true
+	case map[string]any:
+		b, ok := y.(map[string]any)
+		if !ok || len(a) != len(b) {
+			return false
+		}
+		for k, v := range a {
+			w, ok := b[k]
+			if !ok || !exactEqual(v, w) {
+				return false
+			}
+		}
+		return true
 	}
 	return reflect.DeepEqual(x, y)
 }
